@@ -46,6 +46,19 @@ def steps (days : List Day) (a : Account) (F D : Int) : Nat :=
   ((userPostings days).filter (fun (d, p) => decide (F < d) && decide (d ≤ D) && p.account = a)).length +
   ((days.filter (fun d => decide (F < d.date) && decide (d.date ≤ D) && !d.prices.isEmpty)).length + 1) * (commoditiesOf days a).length
 
+/-- truncations inside `(F, D]` on the position `(a, c)`, as an explicit function of the journal: one per non-zero
+booking on it, at most one revaluation per day carrying a price declaration; none in the valuation commodity itself
+(`Properties/C03Report.lean` proves that the pipeline's step count is at most this) -/
+def stepCount (v : Commodity) (days : List Day) (a : Account) (F D : Int) (c : Commodity) : Nat :=
+  if c = v then 0 else
+    ((userPostings days).filter (fun (d, p) => decide (F < d) && decide (d ≤ D) && decide (p.account = a) &&
+        decide (p.commodity = c) && decide (p.quantity ≠ 0))).length +
+    (days.filter (fun d => decide (F < d.date) && decide (d.date ≤ D) && !d.prices.isEmpty)).length
+
+/-- the bound of the whole account row: the sum over the account's commodities -/
+def stepBound (v : Commodity) (days : List Day) (a : Account) (F D : Int) : Nat :=
+  ((commoditiesOf days a).map (stepCount v days a F D)).sum
+
 def alAccounts (days : List Day) : List Account :=
   (((userPostings days).map (fun x => x.2.account)).filter (·.isAL)).eraseDups
 
